@@ -65,6 +65,14 @@ def param_root(t, _elem: bool = False) -> Optional[str]:
                 t = f[1]
                 _elem = True
                 continue
+            if isinstance(f, tuple) and f[:2] == ('ref', 'builtin') and f[2] in ('next', 'min', 'max') and args:
+                t = args[0]                 # one of the elements of the argument, as it is
+                _elem = True
+                continue
+            if f == ('ref', 'ext', 'random.choice') and args:
+                t = args[0]
+                _elem = True
+                continue
             if not _elem:
                 return None
             if isinstance(f, tuple) and f[:2] == ('ref', 'builtin') and f[2] in ELEMENT_PRESERVING:
@@ -256,9 +264,13 @@ def _r3(chk: Check) -> None:
             continue
         q = cls + '.eval'
         units.append((q, F.func(q), om.eval_paths(F, cls), ('param', om.self_param(F, q)), ('param', om.state_param(F, q))))
+    closure_params = {}
     for owner, c, p in common.eval_closures(chk):
         fi = F.func(owner)
         units.append((c.qual, fi, closure_paths(F, fi, c), ('param', om.self_param(F, owner)), ('param', om.state_param(F, owner))))
+        a_ = c.node.args
+        closure_params[c.qual] = {x.arg for x in a_.posonlyargs + a_.args + a_.kwonlyargs} | (
+            {'*' + a_.vararg.arg} if a_.vararg else set()) | ({'**' + a_.kwarg.arg} if a_.kwarg else set())
     seen_units = set()
     for q, fi, paths, selft, stt in units:
         if q in seen_units:
@@ -297,5 +309,10 @@ def _r3(chk: Check) -> None:
                                 r = _value_root(e.args[i], roots)
                                 if r is not None:
                                     problems.append('`%s`: %s modifies the value `%s` produced' % (e.text(), f[2], show(r)))
+        if q in closure_params:
+            # a lambda closure: its own parameters are values the caller (map, filter, sorted, the host) hands in
+            for e_, r_, d_ in mutation_events(F, paths):
+                if r_ in closure_params[q]:
+                    problems.append(d_.replace('argument', 'call argument') + ' of the lambda')
         chk.require(not problems, R3, q, fi.where if hasattr(fi, 'where') else '', '; '.join(sorted(set(problems))[:3]) or
                     '%d path(s): operand values are read, combined and passed on, never modified' % len(paths))
